@@ -80,6 +80,7 @@ func (s *Session) catchUp(st *Step) error {
 	cfg := s.msConfig()
 	sched := s.W.Sched()
 	emitted := map[string]bool{}
+	lastEmitted := map[string]CEntity{}
 	prev, token := "\x00", ""
 	q := map[string]any{"step": "catchup", "first": st.First}
 	for i := 0; i < 12 && token != prev; i++ {
@@ -102,11 +103,27 @@ func (s *Session) catchUp(st *Step) error {
 		for _, call := range run.Calls {
 			for _, e := range call {
 				emitted[s.entAbstract(e.ID)] = true
+				lastEmitted[s.entAbstract(e.ID)] = Canon(e)
 			}
 		}
 		token = run.Token
 	}
 	s.NonTriv = true
+	// "emitted entities always come from the main dataset": what was emitted last for an id is that id's entity as
+	// the main dataset alone holds it now (nothing is written during a catch-up), not a merge with other datasets
+	for a, ce := range lastEmitted {
+		if !contains(st.AllowedE, a) {
+			continue // reported as foreign below
+		}
+		cur, err := s.W.Store.GetEntity(ce.ID, []string{s.DsReal(s.H.Ms.Main)}, true)
+		if err != nil || cur == nil {
+			continue
+		}
+		s.Checks++
+		if want := Canon(cur); want.Key() != ce.Key() {
+			s.diverge("multisource-content", q, want, ce, "emitted entity vs the main dataset's own version")
+		}
+	}
 	var missing, foreign []string
 	for _, r := range st.Required {
 		if !emitted[r] {
